@@ -63,6 +63,8 @@ func runC05(c *an.Ctx) {
 	c.Min("R05.4", 10)
 	r058(c, "R05.8")
 	c.Min("R05.8", 3)
+	r068(c, "R05.12") // an empty writable / update mask is not "no mask" (shared with R06.8)
+	c.Min("R05.12", 3)
 	r059intersect(c, "R05.9")
 	r0510(c, "R05.10")
 	r0511(c, "R05.11")
